@@ -127,7 +127,7 @@ pub struct Merged {
     pub slow_inconclusive: u64,
     pub shrink_evals: u64,
     pub duplicate_failures: u64,
-    pub per_stream: BTreeMap<String, (u64, u64)>,
+    pub per_stream: BTreeMap<String, (u64, u64, u64)>,
     pub exhaustive_streams: Vec<String>,
 }
 
@@ -195,7 +195,12 @@ pub fn run_prop(prop: &dyn Prop, tier: Tier, seed: u64) -> i32 {
             });
         }
     }
-    let streams = prop.streams(tier);
+    let mut streams = prop.streams(tier);
+    if let Ok(only) = std::env::var("VERIF_STREAMS") {
+        // debugging aid: run a subset of the streams
+        let names: Vec<&str> = only.split(',').collect();
+        streams.retain(|s| names.contains(&s.name));
+    }
     let mut exhaustive_streams = vec![];
     for s in &streams {
         if let StreamKind::Exhaustive { size } = s.kind {
@@ -400,9 +405,10 @@ fn merge_result(
 ) {
     m.evaluations += r.evaluations;
     m.nontrivial_total += r.nontrivial;
-    let e = m.per_stream.entry(stream.to_string()).or_insert((0, 0));
+    let e = m.per_stream.entry(stream.to_string()).or_insert((0, 0, 0));
     e.0 += r.evaluations;
     e.1 += r.nontrivial;
+    e.2 += r.wall_ms;
     for (k, v) in &r.discards {
         *m.discards.entry(k.clone()).or_insert(0) += v;
     }
@@ -594,7 +600,7 @@ fn write_evidence(
         .map(|(k, v)| {
             (
                 k.clone(),
-                serde_json::json!({"evaluations": v.0, "nontrivial": v.1}),
+                serde_json::json!({"evaluations": v.0, "nontrivial": v.1, "worker_cpu_s": (v.2 as f64 / 100.0).round() / 10.0}),
             )
         })
         .collect();
